@@ -155,7 +155,7 @@ impl Monitor for C08 {
     }
 
     fn workload(&self, w: &Work, emit: &mut dyn FnMut(Case)) -> J {
-        let n = w.share(30_000, 3_000_000);
+        let n = w.share(100_000, 4_000_000);
         let mut rng = w.rng("C08", 1);
         let cfg = GenCfg::std(STD_ALPHA);
         let mut cfg2 = GenCfg::std(&['a', 'b', 'A', '\n', 'a', 'b']);
